@@ -423,13 +423,72 @@ func c09R2R3Verify(c *Ctx, a *c09A) {
 			keys := cl.Call.Args[1]
 			mm, isMake := keys.(*ssa.MakeMap)
 			key := "C09-R2|" + fnKey(fn) + "|VerifyRRSIGWithWork key map"
+			// the map may be built by an unexported helper (construction loop extracted):
+			// then it is the helper's one MakeMap, filled in the helper, whose parameters
+			// stand for the call's arguments
+			mapFn := fn
+			var hargs []ssa.Value
+			if !isMake {
+				if kc, ok := keys.(*ssa.Call); ok {
+					if h := localHelper(fn, &kc.Call); h != nil {
+						var hm *ssa.MakeMap
+						single := true
+						for _, b := range h.Blocks {
+							for _, hi := range b.Instrs {
+								if r, ok := hi.(*ssa.Return); ok {
+									if len(r.Results) != 1 {
+										single = false
+										continue
+									}
+									m2, ok := r.Results[0].(*ssa.MakeMap)
+									if !ok || (hm != nil && hm != m2) {
+										single = false
+										continue
+									}
+									hm = m2
+								}
+							}
+						}
+						if single && hm != nil {
+							mm, isMake, mapFn, hargs = hm, true, h, kc.Call.Args
+						}
+					}
+				}
+			}
 			if !isMake {
 				if round == 0 {
 					c.undecided("C09-R2", key, instrPos(in), "key map is not a locally created map; its contents are not decided: "+trunc(Desc(keys).String(), 120))
 				}
 				continue
 			}
-			ups := c09MapUpdatesOf(fn, mm)
+			// viaArg: a pattern on the caller's values, lifted to the helper's parameters
+			viaArg := func(p Pat) Pat {
+				if hargs == nil {
+					return p
+				}
+				return func(x *Expr) bool {
+					return x != nil && x.K == EParam && x.Idx >= 0 && x.Idx < len(hargs) && Contains(p)(Desc(hargs[x.Idx]))
+				}
+			}
+			isTrustedMapVal := func(x *Expr) bool {
+				if x == nil {
+					return false
+				}
+				v := x.V
+				if hargs != nil {
+					if x.K != EParam || x.Idx < 0 || x.Idx >= len(hargs) {
+						return false
+					}
+					v = hargs[x.Idx]
+				}
+				for _, tm := range trustedMaps {
+					if v == tm {
+						return true
+					}
+				}
+				return false
+			}
+			ups := c09MapUpdatesOf(mapFn, mm)
 			if round == 0 {
 				trusted := len(ups) > 0
 				for _, u := range ups {
@@ -438,14 +497,14 @@ func c09R2R3Verify(c *Ctx, a *c09A) {
 						if s != nil && s.K == ELookup && s.X != nil && s.X.V == mm {
 							continue
 						}
-						if Contains(isParam0)(l) {
+						if Contains(viaArg(isParam0))(l) {
 							continue
 						}
 						trusted = false
 					}
 				}
 				if trusted {
-					trustedMaps = append(trustedMaps, mm)
+					trustedMaps = append(trustedMaps, keys)
 					v := cl
 					passes = append(passes, pass{cl, "trusted", OnTrue("verified(trusted keys)", func(e *Expr) bool {
 						e = strip(e)
@@ -488,12 +547,7 @@ func c09R2R3Verify(c *Ctx, a *c09A) {
 						if x.K != ELookup || x.X == nil {
 							return false
 						}
-						for _, tm := range trustedMaps {
-							if x.X.V == tm {
-								return true
-							}
-						}
-						return false
+						return isTrustedMapVal(strip(x.X))
 					})(e.Args[0])
 					if !fromTrusted {
 						return false
@@ -506,7 +560,7 @@ func c09R2R3Verify(c *Ctx, a *c09A) {
 					return len(inserted) > 0
 				})
 				k3 := "C09-R3|" + fnKey(fn) + "|revoked-bootstrap key admitted"
-				if ug, tr := c.unguarded(u, []Barrier{guard}, fn); ug {
+				if ug, tr := c.unguarded(u, []Barrier{guard}, mapFn); ug {
 					okAll = false
 					c.violation("C09-R3", k3, instrPos(u), "a key enters the second-pass key map without sameKeyExceptRevoke(trusted key, this key)=true (tag match alone lets an unrelated self-signed key authenticate the RRset); path "+tr)
 				} else {
